@@ -4,12 +4,14 @@ import (
 	"context"
 	"encoding/base64"
 	"fmt"
+	"os"
 	"path"
 	"reflect"
 	"strings"
 
 	"git.defalsify.org/vise.git/cache"
 	"git.defalsify.org/vise.git/db"
+	fsdb "git.defalsify.org/vise.git/db/fs"
 	"git.defalsify.org/vise.git/persist"
 	"git.defalsify.org/vise.git/state"
 
@@ -177,6 +179,7 @@ func runC11(c *vk.Ctx) {
 	c11PersisterLoads(c)
 	c11SharedPersisterRefused(c)
 	c11LongIds(c)
+	c11ContextBeforeConnect(c)
 	ctx := context.Background()
 	sids, keys := c11SidsQuick, c11KeysQuick
 	if !c.Quick() {
@@ -671,5 +674,90 @@ func c11LongIds(c *vk.Ctx) {
 				}
 			}
 		}()
+	}
+}
+
+// c11ContextBeforeConnect: the session (and data type) are selected on the handle before it is connected - the
+// order persist.NewPersister(store).WithSession(id) followed by Connect gives. Handles prepared that way over one
+// directory must be as isolated from each other as handles that select the session after connecting.
+func c11ContextBeforeConnect(c *vk.Ctx) {
+	if !c.Mine(5) || !c.Want("context-before-connect") {
+		return
+	}
+	c.Begin("context-before-connect")
+	ctx := context.Background()
+	sids := []string{"alice", "bob", "a", "b", "Ps", "@a", "1a", "carol-0001", "carol-0002"}
+	for _, binary := range []bool{false, true} {
+		dir, err := os.MkdirTemp("", "c11pre-")
+		if err != nil {
+			c.Inconclusive(err.Error())
+			return
+		}
+		open := func(sid string, typ uint8, viaPersister bool) (db.Db, error) {
+			s := fsdb.NewFsDb()
+			if binary {
+				s = s.WithBinary()
+			}
+			s.SetPrefix(typ)
+			if viaPersister {
+				persist.NewPersister(s).WithSession(sid)
+			} else {
+				s.SetSession(sid)
+			}
+			return s, s.Connect(ctx, dir)
+		}
+		backend := map[bool]string{false: "fs", true: "fsbin"}[binary]
+		owner := map[string]string{}
+		for i, sid := range sids {
+			for _, typ := range []uint8{db.DATATYPE_USERDATA, db.DATATYPE_STATE} {
+				s, err := open(sid, typ, i%2 == 1)
+				if err != nil {
+					c.Inconclusive(err.Error())
+					continue
+				}
+				// nobody has written "k" under this session and type yet
+				got, gerr := s.Get(ctx, []byte("k"))
+				c.EvalN(1, 1)
+				c.Count("handles_prepared_before_connect", 1)
+				if gerr == nil {
+					c.Violate(backend+":context-selected-before-connect:read", fmt.Sprintf("%s: a handle on which (type %d, session %q) was selected before Connect reads %q, which %s wrote; this session never wrote the key", backend, typ, sid, got, owner[string(got)]),
+						"context-before-connect", map[string]interface{}{"backend": backend, "session": sid, "type": typ})
+					os.RemoveAll(dir)
+					return
+				}
+				v := fmt.Sprintf("value-of-%s-%d", sid, typ)
+				owner[v] = fmt.Sprintf("(type %d, session %q)", typ, sid)
+				if err := s.Put(ctx, []byte("k"), []byte(v)); err != nil {
+					c.Count("addresses_not_accepted_by_backend", 1)
+				}
+				s.Close(ctx)
+			}
+		}
+		// everybody reads back through handles prepared the same way, and through handles prepared the usual way
+		for i, sid := range sids {
+			for _, typ := range []uint8{db.DATATYPE_USERDATA, db.DATATYPE_STATE} {
+				want := fmt.Sprintf("value-of-%s-%d", sid, typ)
+				s, _ := open(sid, typ, i%2 == 0)
+				got, gerr := s.Get(ctx, []byte("k"))
+				s.Close(ctx)
+				u := fsdb.NewFsDb()
+				if binary {
+					u = u.WithBinary()
+				}
+				u.Connect(ctx, dir)
+				u.SetPrefix(typ)
+				u.SetSession(sid)
+				got2, gerr2 := u.Get(ctx, []byte("k"))
+				u.Close(ctx)
+				c.EvalN(2, 2)
+				if gerr != nil || string(got) != want || gerr2 != nil || string(got2) != want {
+					c.Violate(backend+":context-selected-before-connect:returns-value-overwritten-by", fmt.Sprintf("%s: (type %d, session %q) wrote %q through a handle prepared before Connect; read back through such a handle: %q (err %v), through a handle that selects the session after Connect: %q (err %v)", backend, typ, sid, want, got, gerr, got2, gerr2),
+						"context-before-connect", map[string]interface{}{"backend": backend, "session": sid, "type": typ})
+					os.RemoveAll(dir)
+					return
+				}
+			}
+		}
+		os.RemoveAll(dir)
 	}
 }
